@@ -20,6 +20,7 @@ import (
 	"encoding/hex"
 	"encoding/json"
 	"fmt"
+	"strings"
 	"math/big"
 	"strconv"
 	"testing"
@@ -291,7 +292,33 @@ func runC08(cs c08Case) *Outcome {
 	ethCallQ := func(path string, from common.Address, to, data, value string, gas uint64, al ethtypes.AccessList, gasCap uint64, remember bool) *abci.ResponseQuery {
 		req := evmtypes.EthCallRequest{Args: c08CallArgs(from, to, data, value, gas, al), GasCap: gasCap}
 		bz, _ := req.Marshal()
-		return query(path[len("/ethermint.evm.v1.Query/"):], path, bz, remember)
+		r := query(path[len("/ethermint.evm.v1.Query/"):], path, bz, remember)
+		// the same request handed to the keeper's query server on a context of the caller: everything the execution
+		// writes must stay in the StateDB's own branch, the caller's context reads the same before and after
+		kctx, _ := a.CommittedCtx().CacheContext()
+		before := a.Dump(kctx).Digest()
+		var kerr error
+		func() {
+			defer func() {
+				if rec := recover(); rec != nil {
+					kerr = fmt.Errorf("panic: %v", rec)
+				}
+			}()
+			if strings.HasSuffix(path, "EstimateGas") {
+				_, kerr = a.App.EvmKeeper.EstimateGas(kctx, &req)
+			} else {
+				_, kerr = a.App.EvmKeeper.EthCall(kctx, &req)
+			}
+		}()
+		if after := a.Dump(kctx).Digest(); after != before {
+			o.dev("", "%s executed by the keeper on a context of the caller changed the stores read through that context", path[len("/ethermint.evm.v1.Query/"):])
+		}
+		if kerr == nil {
+			o.label("keeper-level:executed")
+		} else {
+			o.label("keeper-level:error")
+		}
+		return r
 	}
 
 	traceCfg := func(c c08Call) *evmtypes.TraceConfig {
